@@ -84,11 +84,3 @@ Theorem C06_rk4_componentwise (A B : vspace) (fa : R -> A -> A) (fb : R -> B -> 
 Proof. exact (rk4_gen_product A B fa fb h t x). Qed.
 Print Assumptions C06_rk4_componentwise.
 
-(* through the solver wrappers: SolverType.RK4 applies the classical scheme to the MODEL's
-   right-hand side, i.e. the model is called at times t, t + dt/2, t + dt/2, t + dt *)
-Theorem C06_solver_rk4_is_classic (VS : vspace) (F : R -> VS -> VS) userdt dtmin dtmax t x :
-  let dt := clamp_dt dtmin dtmax (userdt (F t x)) in
-  solver_RK4_gen Rops VS (@vadd VS) (@smul VS) F userdt dtmin dtmax t x =
-  (rk_step VS F classic4 t x dt, dt).
-Proof. exact (solver_rk4_is_classic VS F userdt dtmin dtmax t x). Qed.
-Print Assumptions C06_solver_rk4_is_classic.
